@@ -48,8 +48,9 @@ pub fn compiler_err_kind<E: std::fmt::Debug>(e: &E) -> Value {
     };
     if let Some(n) = arg("DuplicateRule(") {
         json!({ "dup": n })
-    } else if let Some(n) = arg("UnknownRuleDependency(") {
-        json!({ "unkdep": n })
+    } else if d.starts_with("UnknownRuleDependency(") {
+        // which of several unknown dependencies is named follows `HashSet` order: not compared
+        json!("unkdep")
     } else if d.starts_with("Rule(") {
         json!("rule")
     } else if d.starts_with("Template(") {
